@@ -7,7 +7,7 @@
    C15_align_operand; what stays outside is stated in the comment of C15_no_internal_exception. *)
 From Coq Require Import ZArith List String.
 From BB Require Import Base.PyBase Gen.Encoders Model.Items Model.Encode Model.Passes
-  Proofs.Layout Proofs.Pipeline Proofs.Errors Proofs.Examples Model.Parser Proofs.ParseErrors Proofs.EncSig Proofs.EncTotal Proofs.NoRaw Proofs.ParseOk Gen.ParseTable Proofs.ParseTable Proofs.ReaderErrors Proofs.Program Proofs.TextErrors.
+  Proofs.Layout Proofs.Pipeline Proofs.Errors Proofs.Examples Model.Parser Proofs.ParseErrors Proofs.EncSig Proofs.EncTotal Proofs.NoRaw Proofs.ParseOk Gen.ParseTable Proofs.ParseTable Proofs.ReaderErrors Proofs.Program Proofs.TextErrors Proofs.Whole.
 Import ListNotations.
 Open Scope Z_scope.
 
@@ -216,6 +216,26 @@ Proof.
       first [discriminate | match goal with Hq : _ = _ |- _ => inversion Hq; subst; reflexivity end]). }
   vm_compute. reflexivity.
 Qed.
+
+(* ... AND FOR THE WHOLE MODEL of asm.assemble -- reader (include splicing over an abstract file system, any nesting within the
+   fuel), lexer, parser, 16 passes (Proofs/Whole.v assemble_model): when the argument is a source text or a file and every line
+   that is read meets the per-line condition, the run never ends with a raw exception, and an AssemblerError names the file and
+   line number of a line that was read (the reader's own errors -- missing include -- carry the including file and line by
+   construction: C15_missing_include_located) *)
+Theorem C15_whole_no_internal_exception :
+  forall fuel fs cwd incs top consts labels compress x,
+    (Reader.fs_exists fs cwd top = true -> Reader.fs_isfile fs cwd top = true) ->
+    (forall lns, Reader.read_lines fuel fs cwd incs top = Reader.ROk lns -> Forall TextErrors.line_cond (map Whole.to_text lns)) ->
+    Whole.assemble_model fuel fs cwd incs top consts labels compress <> Whole.WFail (PRaw x).
+Proof. exact Whole.whole_no_raw. Qed.
+Print Assumptions C15_whole_no_internal_exception.
+Theorem C15_whole_located :
+  forall fuel fs cwd incs top consts labels compress l lns,
+    Reader.read_lines fuel fs cwd incs top = Reader.ROk lns -> Forall TextErrors.line_cond (map Whole.to_text lns) ->
+    Whole.assemble_model fuel fs cwd incs top consts labels compress = Whole.WFail (PAsm l) ->
+    exists ln, In ln lns /\ l = {| lfile := Reader.l_file ln; lnum := Reader.l_num ln |}.
+Proof. exact Whole.whole_located. Qed.
+Print Assumptions C15_whole_located.
 
 (* the class -> mnemonic-table map of the well-formedness above (Proofs/EncSig.v class_sig) is the dispatch of asm.parse_item as
    REGENERATED from the source (Gen/ParseTable.v): the parser builds each class from exactly that table and passes the operand
